@@ -167,16 +167,53 @@ def callable_cell(ops, a, b, op: str) -> str | None:
     ops.reset()
     if op == "join":
         r = get_proper_type(ops.join_types(a, b))
-        first_ok, second_ok = ops.is_subtype(a, r), ops.is_subtype(b, r)
+        ok = ops.is_subtype(a, r) and ops.is_subtype(b, r)
     else:
         r = get_proper_type(ops.meet_types(a, b))
-        first_ok, second_ok = ops.is_subtype(r, a), ops.is_subtype(r, b)
-    if not (isinstance(r, CallableType) and r.arg_kinds == pb.arg_kinds and second_ok and not first_ok):
+        ok = ops.is_subtype(r, a) and ops.is_subtype(r, b)
+    if ok or not (isinstance(r, CallableType) and r.arg_kinds == pb.arg_kinds and len(r.arg_types) == len(pb.arg_types)):
+        return None
+    # the parameter types are the pointwise meets (join) / joins (meet) — or joins for equivalent operands —
+    # and the return type the join / meet of the return types: nothing but the kinds/names is off
+    def same(x, y) -> bool:
+        return real.canon_real(x) == real.canon_real(y)
+    duals = [ops.meet_types, ops.join_types] if op == "join" else [ops.join_types]
+    if not any(all(same(rt, d(bt, at)) for rt, bt, at in zip(r.arg_types, pb.arg_types, pa.arg_types)) for d in duals):
+        return None
+    rets = [ops.join_types(pb.ret_type, pa.ret_type)] + ([ops.meet_types(pb.ret_type, pa.ret_type)] if op == "meet" else [])
+    if not any(same(r.ret_type, x) for x in rets):
         return None
     if pa.arg_kinds != pb.arg_kinds:
         return "callable×callable[similar, argument kinds differ]"
     if op == "meet" and pa.arg_names != pb.arg_names and r.arg_names == pb.arg_names:
         return "callable×callable[similar, argument names differ]"
+    if op == "join" and any(na != nb and nr == nb and (ka.is_named() or kb.is_named())
+                            for na, nb, nr, ka, kb in zip(pa.arg_names, pb.arg_names, r.arg_names, pa.arg_kinds, pb.arg_kinds)):
+        # combine_arg_names keeps the second operand's name for a keyword-only parameter
+        return "callable×callable[similar, keyword-only argument names differ]"
+    from mypy.nodes import ARG_STAR2
+    if op == "join" and ARG_STAR2 in r.arg_kinds and any(
+            na != nb and nr is None and ka.is_positional() for na, nb, nr, ka in zip(pa.arg_names, pb.arg_names, r.arg_names, pa.arg_kinds)):
+        # combine_arg_names drops a positional parameter's name when the operands disagree; with **kwargs in the
+        # join that name could then arrive as a keyword, which the operand naming the parameter cannot accept
+        return "callable×callable[similar, positional argument names differ, **kwargs present]"
+    return None
+
+
+def callback_join_cell(ops, a, b) -> str | None:
+    """join of a callable with a callback protocol (only member `__call__`): the protocol is replaced by its
+    `__call__` signature, and when those two callables have no callable join the result is `builtins.function`,
+    which an instance implementing the protocol is not a subtype of (same root as F-C08a)."""
+    from mypy.types import CallableType, Instance, get_proper_type
+    pa, pb = get_proper_type(a), get_proper_type(b)
+    for x, y in ((pa, pb), (pb, pa)):
+        if (isinstance(x, CallableType) and isinstance(y, Instance) and y.type.is_protocol
+                and y.type.protocol_members == ["__call__"]):
+            ops.reset()
+            r = get_proper_type(ops.join_types(a, b))
+            if isinstance(r, Instance) and r.type.fullname == "builtins.function" and ops.is_subtype(x, r) \
+                    and not ops.is_subtype(y, r):
+                return "callable×callback-protocol[join is builtins.function]"
     return None
 
 
@@ -204,7 +241,8 @@ def bound_observed(ops, a, b, op: str) -> dict:
     """`observed` of a failing bound law on its core instance."""
     if op == "meet":
         return {"class": "meet-not-lower-bound", "cell": meet_cell(ops, a, b)}
-    return {"class": "join-not-upper-bound", "cell": callable_cell(ops, a, b, "join") or f"{kind(a)}×{kind(b)}"}
+    return {"class": "join-not-upper-bound",
+            "cell": callable_cell(ops, a, b, "join") or callback_join_cell(ops, a, b) or f"{kind(a)}×{kind(b)}"}
 
 
 def union_items(t):
@@ -354,7 +392,8 @@ def real_passes(ctx: Ctx, u: Universe, ops: real.Ops, idx: list[int], tag: str):
         # structural block: protocols, the classes/instances that may implement them, Type[...] and callables all in
         # one block, run in a shuffled order and in the reverse of it, so that for any two of its queries each
         # comes before the other once (a check of a class object against a protocol before the check of the instance)
-        special = [i for i in idx if kind(u.types[i]) in ("protocol", "type[C]", "instance", "callable")][:48]
+        by_kind = {k: [i for i in idx if kind(u.types[i]) == k] for k in ("protocol", "type[C]", "instance", "callable")}
+        special = by_kind["protocol"][:12] + by_kind["type[C]"][:12] + by_kind["instance"][:16] + by_kind["callable"][:8]
         qs = [(op, a, b) for a in special for b in special for op in ("sub", "psub")]
         ctx.rng.shuffle(qs)
         run_block(u, ops, qs, cold_canon, problems, "warm (protocol block)")
